@@ -15,9 +15,11 @@ vars == <<T, J, old, o, R>>
 Leaf == {[k |-> x] : x \in LeafKinds}
 LeafR == {[k |-> x] : x \in {"i8", "u16", "int", "f32", "f64", "str", "bool", "iface", "num", "raw", "bytes", "uj", "ut"}}
 KeyKinds == {"str", "int", "i8", "u8", "txt"}
-Wrap(S) == {[k |-> "ptr", e |-> t] : t \in S} \cup {[k |-> "slice", e |-> t] : t \in S}
-           \cup {[k |-> "arr", n |-> n, e |-> t] : n \in {0, 1, 2}, t \in S}
-           \cup {[k |-> "map", key |-> kk, e |-> t] : kk \in KeyKinds, t \in S}
+AllKeyKinds == {"str", "txt"} \cup IntKinds \cup UintKinds
+WrapK(S, KK) == {[k |-> "ptr", e |-> t] : t \in S} \cup {[k |-> "slice", e |-> t] : t \in S}
+                \cup {[k |-> "arr", n |-> n, e |-> t] : n \in {0, 1, 2}, t \in S}
+                \cup {[k |-> "map", key |-> kk, e |-> t] : kk \in KK, t \in S}
+Wrap(S) == WrapK(S, KeyKinds)
 
 Fld(tg, n, jn, t) == [tag |-> tg, n |-> n, jn |-> jn, t |-> t]
 \* field tag forms for the field whose Go name is n
@@ -29,9 +31,11 @@ EmbT == St(<<Fld("ren", "A", "A", [k |-> "i8"]), Fld("ren", "B", "b", [k |-> "st
 
 Types ==
   CASE Fam = "leaf" -> Leaf
-    [] Fam = "wrap1" -> Wrap(Leaf)
+    [] Fam = "wrap1" -> WrapK(Leaf, AllKeyKinds)        \* every key kind: each has its own key parser
     [] Fam = "wrap2" -> Wrap(Wrap(LeafR))
     [] Fam = "st1" -> {St(<<f>>) : f \in UNION {TagForms("A", t) : t \in Leaf \cup Wrap(LeafR)}}
+    [] Fam = "st1l" -> {St(<<f>>) : f \in UNION {TagForms("A", t) : t \in Leaf}}          \* every tag form on every leaf kind
+    [] Fam = "st1w" -> {St(<<f>>) : f \in UNION {TagForms("A", t) : t \in Wrap(LeafR)}}
     [] Fam = "st2" -> {St(<<f, g>>) : f \in UNION {TagForms("A", t) : t \in {[k |-> "i8"], [k |-> "str"], [k |-> "slice", e |-> [k |-> "int"]]}},
                                       g \in UNION {{Fld("none", "B", "B", t), Fld("ren", "B", "A", t), Fld("ren", "B", "a", t), Fld("str", "B", "B", t)} :
                                                    t \in {[k |-> "i8"], [k |-> "iface"], [k |-> "ptr", e |-> [k |-> "f64"]], [k |-> "map", key |-> "str", e |-> [k |-> "int"]]}}}
@@ -57,7 +61,7 @@ Atoms == {Null, [j |-> "t"], [j |-> "f"], [j |-> "x", c |-> "x01"], [j |-> "x", 
           Arr(<<>>), Arr(<<N("p7")>>), Arr(<<Null>>), Obj(<<>>), Obj(<<KV("A", N("p7"))>>), Obj(<<KV("k", S("sx"))>>), Obj(<<KV("12", N("p7"))>>)}
          \cup {N(c) : c \in NumClasses} \cup {S(c) : c \in StrClasses \ (QClasses \ {"q7", "q300"})}
 AtomsR == {Null, [j |-> "t"], N("p7"), N("p300"), N("f1_5"), S("sx"), S("s12"), Arr(<<>>), Obj(<<>>), [j |-> "x", c |-> "x01"]}
-          \cup (IF Fam \in {"st1", "st2", "emb", "opts"} THEN {S(c) : c \in QClasses \cup {"strue", "sq", "snull"}} ELSE {})
+          \cup (IF Fam \in {"st1", "st1l", "st1w", "st2", "emb", "opts"} THEN {S(c) : c \in QClasses \cup {"strue", "sq", "snull"}} ELSE {})
 
 RECURSIVE Match(_)
 Match(t) ==
@@ -75,7 +79,8 @@ Match(t) ==
                                                   IF t.f[i].tag = "str" /\ QuotableField(t.f[i].t) THEN S("q7")
                                                   ELSE Match(IF t.f[i].tag = "emb" THEN [k |-> "i8"] ELSE t.f[i].t))])
 
-AltKeys == {"A", "a", "B", "b", "C", "x", "Z", "k", "12", "-1", "300", "01", ""}
+AltKeys == {"A", "a", "B", "b", "C", "x", "Z", "k", "12", "-1", "300", "01", "", "-129", "200", "40000", "-40000", "3000000000", "5000000000",
+            "9223372036854775808", "-9223372036854775808"}
 
 \* every document that differs from J at one point: a sub-document replaced by an atom, an element or member
 \* dropped or duplicated, a key replaced
